@@ -1,6 +1,6 @@
 (* C04 — Serialising a template back to source preserves its meaning.  Property theorems only. *)
 From Coq Require Import String.
-From LiquidVerif Require Import Prelude PyPrims Cond CondPrint Cond_Proofs CondParen CondParen_Proofs StrLit StrLit_Proofs TagTree TagTree_Proofs PathSyntax PathSyntax_Proofs ExprSyntax ExprSyntax_Proofs ExprSyntax_Tags_Proofs.
+From LiquidVerif Require Import Prelude PyPrims Cond CondPrint Cond_Proofs CondParen CondParen_Proofs StrLit StrLit_Proofs TagTree TagTree_Proofs PathSyntax PathSyntax_Proofs ExprSyntax ExprSyntax_Proofs ExprSyntax_Tags_Proofs TemplateFull TemplateFull_Proofs.
 Local Open Scope string_scope. Local Open Scope list_scope.
 
 (* for EVERY condition tree (any depth, any mix of and / or / not, comparisons, membership tests and groups) the text that
@@ -155,6 +155,43 @@ Theorem C04_old_filter_argument_refuted :
 Proof. exact old_filter_argument_refuted. Qed.
 Print Assumptions C04_old_filter_argument_refuted.
 
+(* ---------------- whole templates with structured payloads (TemplateFull.v): the two halves composed ----------------
+   A tree whose output statements carry an expression and whose tags carry the payload their parse method builds (a payload of ExprSyntax,
+   a condition for if / elsif / unless, nothing, or opaque text for liquid / inline comments).  The serialiser writes every payload with
+   print_payload / print2 into the tag-level tokens of TagTree; the parser is Parser.parse_block (TagTree.parse_template) followed by each
+   tag's own expression parser on the tokens the expression lexer yields for the tag's text.  The lexer [lex] and the spelling of a token
+   list [render] are parameters; wf_full asks, for the payloads IN THE TREE, lex (render ts) = Ok ts (assumed: not discharged by ExprLex;
+   checked case by case by the harness's tokenisers), besides TagTree's wf_nodes for the shape and wf_payload for every payload. *)
+
+(* for EVERY well-formed template tree -- any nesting of block tags and sections, any payload in every tag, any condition tree -- parsing
+   the serialisation gives back exactly the tree; any tag register that is coherent, any test for dotted names that never accepts a keyword *)
+Theorem C04_template_roundtrip : forall is_prop, (forall s, is_prop s = true -> is_kw s = false) ->
+  forall render lex tag_kind, reg_ok tag_kind -> forall tpk_of t, wf_full is_prop render lex tag_kind tpk_of t ->
+  parse_template_full lex tag_kind tpk_of (print_template_full is_prop render t) = Ok t.
+Proof. exact full_roundtrip. Qed.
+Print Assumptions C04_template_roundtrip.
+
+(* ... in particular for the standard tags with the parser each of them uses, and the implementation's is_property *)
+Theorem C04_standard_template_roundtrip : forall render lex t, wf_full expr_is_prop render lex std_kind std_tpk t ->
+  parse_template_full lex std_kind std_tpk (print_template_full expr_is_prop render t) = Ok t.
+Proof. exact std_full_roundtrip. Qed.
+Print Assumptions C04_standard_template_roundtrip.
+
+(* the re-parsed template IS the original tree, hence renders identically on every data, and its serialisation is the same text *)
+Theorem C04_template_same_tree : forall render lex t, wf_full expr_is_prop render lex std_kind std_tpk t ->
+  exists t', parse_template_full lex std_kind std_tpk (print_template_full expr_is_prop render t) = Ok t' /\ t' = t /\
+             print_template_full expr_is_prop render t' = print_template_full expr_is_prop render t.
+Proof. exact (fun render lex => full_same_tree expr_is_prop expr_is_prop_not_kw render lex std_kind std_reg_ok std_tpk). Qed.
+Print Assumptions C04_template_same_tree.
+
+(* from SOURCE tokens: if the parser accepts them and the tree it builds is well formed, str() parses again and a second str() is the same *)
+Theorem C04_template_idempotent : forall render lex ts t, parse_template_full lex std_kind std_tpk ts = Ok t ->
+  wf_full expr_is_prop render lex std_kind std_tpk t ->
+  exists t', parse_template_full lex std_kind std_tpk (print_template_full expr_is_prop render t) = Ok t' /\
+             print_template_full expr_is_prop render t' = print_template_full expr_is_prop render t.
+Proof. exact (fun render lex => full_idempotent expr_is_prop expr_is_prop_not_kw render lex std_kind std_reg_ok std_tpk). Qed.
+Print Assumptions C04_template_idempotent.
+
 (* non-vacuity / reading aids *)
 Example C04_print2_example :
   print2 (BOr (BAnd (BVar (lit "a")) (BNot (BVar (lit "b")))) (BCmp OEq (BVar (lit "c")) (BAnd (BVar (lit "a")) (BVar (lit "b"))))) =
@@ -172,3 +209,9 @@ Example C04_expression_example :
   print_payload expr_is_prop (YWhen [PInt 1; PStr (lit "a"); v1 "y"]) = [EInt 1; EComma; EStr (lit "a"); EComma; EWord (lit "y")] /\
   parse_payload KExpr (print_payload expr_is_prop (YExpr big_expr)) = Ok (YExpr big_expr).
 Proof. vm_compute. repeat split. Qed.
+
+(* wf_full is satisfiable, lexer hypothesis included: a template using every payload kind, with a lexer given as a finite table *)
+Example C04_template_example :
+  wf_full expr_is_prop demo_render demo_lex std_kind std_tpk demo_tree /\
+  parse_template_full demo_lex std_kind std_tpk (print_template_full expr_is_prop demo_render demo_tree) = Ok demo_tree.
+Proof. split; [exact demo_wf_full|exact demo_roundtrip]. Qed.
